@@ -2,4 +2,5 @@ let table = [
   "cos", Cos.accept;
   "retry", Retry.accept;
   "retry_kernel", RetryKernel.run_line;
+  "mapfut", MapFut.accept;
 ]
